@@ -9,6 +9,7 @@ import (
 	"crypto/x509"
 	"crypto/x509/pkix"
 	"encoding/binary"
+	"errors"
 	"fmt"
 	"io"
 	"math/big"
@@ -76,6 +77,9 @@ func newC13Env(w *core.W, kind, scenario string, seed uint64) *c13Env {
 	switch kind {
 	case "tcp-sim":
 		e.ln = netsim.NewListener()
+		if seed%2 == 1 {
+			e.ln.ClosedErr = errors.New("netsim: listener closed") // a listener with a closed-sentinel of its own
+		}
 		e.srv.Listener = e.ln
 	case "tls-sim":
 		e.ln = netsim.NewListener()
